@@ -542,6 +542,10 @@ class FiniteAutomaton:
                                             transition["label"],
                                             s_to)
         for node in graph.nodes:
+            if "is_start" in graph.nodes[node] or \
+                    "is_final" in graph.nodes[node]:
+                # A state, even when no transition uses it
+                enfa.states.add(to_state(node))
             if graph.nodes[node].get("is_start", False):
                 enfa.add_start_state(node)
             if graph.nodes[node].get("is_final", False):
